@@ -46,14 +46,23 @@ ASSUMPTIONS = list(K.ASSUMPTIONS[1:]) + [
     'see C08 finding F4); AssertionError from `assert self._session is not None` only on a cleaned-up channel',
     'add_channel: termination of the search loop is not proved for a full table (2^32 channels)',
     'writelines: binary channels only (the str variant differs in the join constant)',
+    'SCOPE: the C07 claim ends where the channel calls session.data_received / session.eof_received; the buffering '
+    'of the stream layer (stream.py SSHStreamSession.data_received / SSHReader.read*, per-datatype chunk lists, partial '
+    'chunk split) is claimed under C19, not here',
+    'session callbacks that re-enter the channel (SSHStreamSession.read -> resume_reading -> nested _flush_recv_buf; '
+    'forwarders calling close() from data_received -> _discard_recv inside the flush loop) are outside the stub: the '
+    'loop invariant of _flush_recv_buf is proved for callbacks that at most pause reading',
+    'SSHTunTapChannel._accept_data / write (channel.py 2139-2155: strip / add a 4-byte address family around the '
+    'verified methods via super()) are not under contract: TUN point-to-point framing is out of scope',
+    'class invariant on the send channel number (part of send_inv here): _send_chan is None or a uint32, and the '
+    'connection is still attached while it is set; writers: process_open / process_open_confirmation (value read '
+    'with get_uint32 by connection.py), _close_send and _cleanup (None) - proved here on _close_send only',
     'ordering of DATA packets on the wire and segmentation of the transport byte stream are C02/C11 (framing, '
     'send_packet order); multi-channel isolation rests on the routing clause plus the per-channel contracts, which '
     'mention no state outside the channel object',
 ]
 
 PROP = 'C07'
-
-ASSUMPTIONS = list(K.ASSUMPTIONS[1:])
 
 # ================================================================== receive side
 # _recv_paused is Union[bool, str] in the source (False / True / 'starting'): modelled as the dynamically typed
@@ -130,6 +139,19 @@ def local_only(qualname, f):
     return lambda c: f(c) if c.ex.spec.qualname == qualname else z3.BoolVal(True)
 
 
+def chan_ok(c, new=True):
+    """the peer's channel number is None (closed for sending) or a uint32, and then the connection is attached"""
+    v = c.newv('_send_chan') if new else c.oldv('_send_chan')
+    cn = c.newv('_conn') if new else c.oldv('_conn')
+    if v is VNone:
+        return z3.BoolVal(True)
+    return z3.Or(v.isnone, z3.And(v.val.z >= 0, v.val.z < 2 ** 32, z3.Not(c.is_none(cn))))
+
+
+def send_inv(c, new=True):
+    return z3.And(K.send_inv(c, new), chan_ok(c, new))
+
+
 def decoder_inv(c):
     """set_encoding creates the decoder together with the encoding (only writer of both fields)"""
     return z3.Implies(c.truthy(c.oldv('_encoding'), c.old_state), z3.Not(c.is_none(c.oldv('_decoder'))))
@@ -139,6 +161,55 @@ def stream(c, new=True):
     """what the application has seen followed by what is still buffered for it, as one chunk list"""
     f = c.new if new else c.old
     return z3.Concat(f('ghost_delivered'), f('_recv_buf'))
+
+
+# ---- SSHChannel.send_packet: every message of this channel is addressed to the peer's number for it
+def conn_send_stub(cx):
+    return [Out(event=('conn_send', (cx.args[0], cx.args[1], cx.kwargs.get('handler', VNone))))]
+
+
+conn_send_stub.modifies = ()
+
+
+def addressed_to_the_peers_channel(c):
+    from pyvc.builtins_model import be, join_fn
+    ev = c.events('conn_send')
+    ch = c.oldv('_send_chan')
+    if ch is VNone:
+        return z3.BoolVal(len(ev) == 0)
+    if len(ev) == 0:
+        return ch.isnone
+    if len(ev) != 1:
+        return z3.BoolVal(False)
+    t, payload, handler = ev[0][1]
+    body = join_fn(BytesS, z3.SeqSort(BytesS))(z3.Empty(BytesS), c.arg('args'))
+    return z3.And(z3.Not(ch.isnone), t.z == c.arg('pkttype'),
+                  # RFC 4254 5.x: uint32 recipient channel, then the message fields unaltered and in order
+                  payload.z == z3.Concat(be(z3.IntVal(4), ch.val.z), body),
+                  z3.BoolVal(isinstance(handler, VRef) and handler.addr == c.self_ref.addr))
+
+
+chan_send_packet = Spec(
+    PROP, 'channel', 'SSHChannel.send_packet', self_class='SSHChannel',
+    params=dict(pkttype='int', args='seq[bytes]'), classes=R_CLASSES,
+    stubs={'self._conn.send_packet': conn_send_stub},
+    requires=lambda c: chan_ok(c, new=False),
+    ensures=[('one-connection-packet-addressed-to-the-peers-channel-number-or-nothing-when-closed',
+              addressed_to_the_peers_channel)])
+chan_send_packet.vararg = 'args'
+
+
+def under_send_contract(inner):
+    """a caller-side stub of self.send_packet (ghost log of what is handed over) combined with the verified
+    contract of SSHChannel.send_packet: its precondition becomes a pre-at-call obligation of the caller"""
+    def stub(cx):
+        outs = inner(cx)
+        couts = contract_stub(lambda: chan_send_packet)(cx)
+        outs[0].assume.extend(couts[0].assume)
+        return outs
+    stub.modifies = inner.modifies
+    stub.spec_getter = lambda: chan_send_packet
+    return stub
 
 
 # ---- environment stubs -------------------------------------------------------------------------------------
@@ -190,6 +261,7 @@ def window_packet_stub(cx):
 
 
 window_packet_stub.modifies = ()
+window_packet_stub = under_send_contract(window_packet_stub)
 
 
 
@@ -203,7 +275,7 @@ deliver_data = Spec(
     params=dict(data='bytes', datatype='opt[int]'), classes=R_CLASSES,
     stubs={'self.send_packet': window_packet_stub, 'self._decoder.decode': decode_stub,
            'self._session.data_received': session_data_stub},
-    requires=lambda c: z3.And(decoder_inv(c), paused_dom(oldp(c))),
+    requires=lambda c: z3.And(decoder_inv(c), paused_dom(oldp(c)), chan_ok(c, new=False)),
     modifies=['_recv_window', '_recv_paused', 'ghost_delivered'],
     ensures=[
         ('handed-to-session-exactly-once-unaltered', lambda c: z3.Or(
@@ -317,7 +389,7 @@ flush_recv_buf = Spec(
                   stream(c) == z3.Concat(c.at_entry('ghost_delivered'), c.at_entry('_recv_buf')))),
         variant=lambda c: z3.Length(c.new('_recv_buf')),
         lemmas=flush_recv_lemmas)},
-    requires=lambda c: z3.And(decoder_inv(c), paused_inv(c, new=False), K.send_inv(c, new=False)),
+    requires=lambda c: z3.And(decoder_inv(c), paused_inv(c, new=False), send_inv(c, new=False)),
     modifies=['_recv_buf', '_recv_window', '_recv_paused', '_recv_state', 'ghost_delivered',
               'ghost_eof_reports', 'ghost_cleanups'] + SEND_MOD,
     ensures=[
@@ -335,6 +407,17 @@ flush_recv_buf = Spec(
         ('eof-stays-pending-only-while-data-is-buffered', lambda c: z3.Implies(
             c.new('_recv_state') == sv('eof_pending'),
             z3.Or(z3.Length(c.new('_recv_buf')) > 0, newp(c) == STARTING))),
+        # EOF iff the sender signalled it, local direction: the automatic EOF echo happens only when the
+        # application answered eof_received() with false and the channel was still open for sending
+        ('eof-echo-only-on-a-false-answer-while-open-for-sending', local_only(FRB, lambda c: z3.If(
+            z3.And(c.old('_send_state') == sv('open'),
+                   z3.Or(*[z3.Not(c.truthy(x['ret'])) for x in c.calls('eof_received')] + [z3.BoolVal(False)])),
+            z3.And(c.new('_send_state') != sv('open'),
+                   c.new('ghost_eof_sent') <= c.old('ghost_eof_sent') + 1),
+            unchanged(c, *SEND_FIELDS)))),
+        ('no-eof-report-no-echo', lambda c: z3.Implies(
+            z3.Or(c.new('ghost_eof_reports') == c.old('ghost_eof_reports'), c.old('_send_state') != sv('open')),
+            unchanged(c, *SEND_FIELDS))),
         ('never-back-to-starting', lambda c: z3.Implies(newp(c) == STARTING, oldp(c) == STARTING)),
         ('recv-state-transitions', lambda c: z3.Or(
             c.new('_recv_state') == c.old('_recv_state'), eof_now(c), closed_now(c))),
@@ -372,6 +455,7 @@ def send_packet_stub(cx):
 
 
 send_packet_stub.modifies = ('ghost_emitted', 'ghost_eof_sent')
+send_packet_stub = under_send_contract(send_packet_stub)
 
 
 def eof_due(c):
@@ -385,13 +469,13 @@ flush_send_buf = Spec(
     loops={1: LoopSpec(
         header='self._send_buf and self._send_window',
         modifies=['ghost_emitted'],
-        invariant=lambda c: z3.And(K.send_inv(c),
+        invariant=lambda c: z3.And(send_inv(c),
                                    c.new('_send_pktsize') == c.at_entry('_send_pktsize'),
                                    c.new('ghost_eof_sent') == c.at_entry('ghost_eof_sent'),
                                    K.conservation(c, c.at_entry('ghost_emitted'), c.at_entry('_send_buf'))),
         variant=lambda c: c.new('_send_window'),
         lemmas=K.flush_lemmas)},
-    requires=lambda c: K.send_inv(c, new=False),
+    requires=lambda c: send_inv(c, new=False),
     modifies=SEND_MOD,
     lemmas=lambda c: [S.ax_empty()],
     ensures=[
@@ -411,14 +495,14 @@ flush_send_buf = Spec(
             z3.And(eof_due(c), c.new('_send_state') == sv('eof')),
             z3.And(c.old('_send_state') == sv('close_pending'), c.new('_send_state') == sv('closed'),
                    z3.Length(c.new('_send_buf')) == 0))),
-        ('class-inv', lambda c: K.send_inv(c)),
+        ('class-inv', lambda c: send_inv(c)),
     ])
 
 
 write_eof = Spec(
     PROP, 'channel', 'SSHChannel.write_eof', self_class='SSHChannel', classes=R_CLASSES,
     stubs={'self._flush_send_buf': contract_stub(lambda: flush_send_buf)},
-    requires=lambda c: K.send_inv(c, new=False),
+    requires=lambda c: send_inv(c, new=False),
     modifies=SEND_MOD,
     ensures=[
         ('eof-deferred-while-data-is-queued', lambda c: z3.Implies(
@@ -433,7 +517,7 @@ write_eof = Spec(
                    c.new('_send_state') == c.old('_send_state')))),
         ('nothing-lost-or-duplicated',
          lambda c: K.conservation(c, c.old('ghost_emitted'), c.old('_send_buf'))),
-        ('class-inv', lambda c: K.send_inv(c)),
+        ('class-inv', lambda c: send_inv(c)),
     ])
 
 
@@ -451,7 +535,7 @@ accept_data = Spec(
     PROP, 'channel', 'SSHChannel._accept_data', self_class='SSHChannel',
     params=dict(data='bytes', datatype='opt[int]'), classes=R_CLASSES,
     stubs={'self._deliver_data': deliver_contract},
-    requires=lambda c: z3.And(decoder_inv(c), recv_inv(c, new=False)),
+    requires=lambda c: z3.And(decoder_inv(c), recv_inv(c, new=False), chan_ok(c, new=False)),
     modifies=['_recv_buf', '_recv_window', '_recv_paused', 'ghost_delivered'],
     ensures=[
         # the chunk joins the end of the stream the application sees - exactly once, behind everything buffered
@@ -483,6 +567,21 @@ def accept_event_stub(cx):
 accept_event_stub.modifies = ()
 
 
+def accept_contract(cx):
+    """_accept_data under its verified contract (requires checked here) + the event the clauses below read"""
+    ev = accept_event_stub(cx)[0].event
+    if len(cx.args) < 2:
+        cx.kwargs.setdefault('datatype', VNone)
+    outs = contract_stub(lambda: accept_data)(cx)
+    for o in outs:
+        o.event = ev
+    return outs
+
+
+accept_contract.modifies = ('_recv_buf', '_recv_window', '_recv_paused', 'ghost_delivered')
+accept_contract.spec_getter = lambda: accept_data
+
+
 def pkt(c):
     st = c.old_state
     r = st.rec(c.argv('packet'))
@@ -506,7 +605,10 @@ def no_accept(c):
     return z3.BoolVal(len(c.events('accept')) == 0)
 
 
-DATA_RAISES = {'ProtocolError': no_accept, 'PacketDecodeError': no_accept}
+ACCEPT_REQ = lambda c: z3.And(decoder_inv(c), recv_inv(c, new=False), chan_ok(c, new=False))
+# rejected before anything is accepted - or a decode error (text channel) / window overflow inside _accept_data
+DATA_RAISES = {'ProtocolError': lambda c: z3.Or(no_accept(c), c.old('_recv_state') == sv('open')),
+               'PacketDecodeError': no_accept, 'OverflowError': True}
 PKT_PARAMS = dict(_pkttype='int', _pktid='int', packet='obj:SSHPacket')
 PKT_CLASSES = dict(R_CLASSES, **PACKET_CLASSES)
 
@@ -518,8 +620,8 @@ def only_stderr(m):
 process_data = Spec(
     PROP, 'channel', 'SSHChannel._process_data', self_class='SSHChannel', params=PKT_PARAMS,
     classes=PKT_CLASSES, inline=dict(PACKET_INLINE), truthy=PACKET_TRUTHY,
-    stubs={'self._accept_data': accept_event_stub},
-    requires=lambda c: packet_wf(c, c.argv('packet')),
+    stubs={'self._accept_data': accept_contract},
+    requires=lambda c: z3.And(packet_wf(c, c.argv('packet')), ACCEPT_REQ(c)),
     ensures=[
         ('payload-accepted-once-unaltered-as-normal-data', lambda c: z3.And(
             payload_is(c, 0), *[c.is_none(e[1][1]) for e in c.events('accept')])),
@@ -530,10 +632,11 @@ process_data = Spec(
 process_extended_data = Spec(
     PROP, 'channel', 'SSHChannel._process_extended_data', self_class='SSHChannel', params=PKT_PARAMS,
     classes=PKT_CLASSES, inline=dict(PACKET_INLINE), truthy=PACKET_TRUTHY,
-    stubs={'self._accept_data': accept_event_stub},
+    stubs={'self._accept_data': accept_contract},
     # the legal read datatypes of every channel class are a subset of {EXTENDED_DATA_STDERR} (class constants
     # channel.py:91,1125), all of which have a name in _data_type_names (used only for the debug log line)
-    requires=lambda c: z3.And(packet_wf(c, c.argv('packet')), only_stderr(c.oldv('_read_datatypes'))),
+    requires=lambda c: z3.And(packet_wf(c, c.argv('packet')), only_stderr(c.oldv('_read_datatypes')),
+                              ACCEPT_REQ(c)),
     ensures=[
         ('payload-accepted-once-unaltered-with-its-datatype', lambda c: z3.And(
             payload_is(c, 4),
@@ -562,7 +665,7 @@ def unchanged(c, *fields):
 
 
 RECV_GHOSTS = ('_recv_buf', '_recv_state', 'ghost_delivered', 'ghost_eof_reports', 'ghost_cleanups')
-FLUSH_REQ = lambda c: z3.And(decoder_inv(c), paused_inv(c, new=False), K.send_inv(c, new=False))
+FLUSH_REQ = lambda c: z3.And(decoder_inv(c), paused_inv(c, new=False), send_inv(c, new=False))
 FLUSH_RAISES = {'OverflowError': True, 'AssertionError': lambda c: c.is_none(c.oldv('_session'))}
 
 process_eof = Spec(
@@ -637,6 +740,7 @@ process_close = Spec(
 close_send = Spec(
     PROP, 'channel', 'SSHChannel._close_send', self_class='SSHChannel', classes=R_CLASSES,
     stubs={'self.send_packet': send_packet_stub},
+    requires=lambda c: chan_ok(c, new=False),
     modifies=SEND_MOD,
     lemmas=lambda c: [S.ok_empty()],
     ensures=[
@@ -645,7 +749,7 @@ close_send = Spec(
                                                         c.new('_send_buf_len') == 0)),
         ('no-data-and-no-eof-emitted', lambda c: z3.And(c.new('ghost_emitted') == c.old('ghost_emitted'),
                                                         c.new('ghost_eof_sent') == c.old('ghost_eof_sent'))),
-        ('class-inv', lambda c: z3.Implies(K.send_inv(c, new=False), K.send_inv(c))),
+        ('class-inv', lambda c: z3.Implies(send_inv(c, new=False), send_inv(c))),
     ])
 
 
@@ -757,7 +861,7 @@ def write_lemmas(c):
 
 
 WRITE_REQ = lambda c: z3.And(
-    K.send_inv(c, new=False), uint32_or_none(c.argv('datatype')),
+    send_inv(c, new=False), uint32_or_none(c.argv('datatype')),
     only_stderr(c.oldv('_write_datatypes')),
     z3.Implies(c.truthy(c.oldv('_encoding'), c.old_state), z3.Not(c.is_none(c.oldv('_encoder')))))
 SEND_FIELDS = ('_send_buf', '_send_buf_len', '_send_state', 'ghost_emitted', 'ghost_eof_sent')
@@ -776,7 +880,7 @@ WRITE_ENSURES = [
                                                          unchanged(c, *SEND_FIELDS))),
     ('only-on-a-channel-open-for-sending', lambda c: c.old('_send_state') == sv('open')),
     ('no-eof-from-a-write', lambda c: c.new('ghost_eof_sent') == c.old('ghost_eof_sent')),
-    ('class-inv', lambda c: K.send_inv(c)),
+    ('class-inv', lambda c: send_inv(c)),
 ]
 WRITE_RAISES = {'BrokenPipeError': lambda c: z3.And(unchanged(c, *SEND_FIELDS),
                                                     c.old('_send_state') != sv('open')),
